@@ -82,12 +82,68 @@ def make_class(d: dict[str, Any]):
         return None
 
 
-def make_instance(cls, d, inst, ext_vals):
+def registered_defs():
+    """(class, abstract definition, {construct: size array is a property?}) for every IRDL operation of every registered dialect."""
+    from xdsl.dialects import get_all_dialects
+    from xdsl.irdl import (AttrSizedOperandSegments, AttrSizedRegionSegments, AttrSizedResultSegments, IRDLOperation, OptionalDef, SameVariadicOperandSize,
+                           SameVariadicRegionSize, SameVariadicResultSize, VariadicDef)
+
+    out = []
+    seen = set()
+    for _name, factory in sorted(get_all_dialects().items()):
+        try:
+            dialect = factory()
+        except Exception:  # noqa: BLE001
+            continue
+        for cls in dialect.operations:
+            if cls in seen or not (isinstance(cls, type) and issubclass(cls, IRDLOperation)):
+                continue
+            seen.add(cls)
+            try:
+                od = cls.get_irdl_definition()
+            except Exception:  # noqa: BLE001
+                continue
+            if od.successors:
+                continue
+
+            def kinds(defs):
+                return [{"kind": "optional" if isinstance(x, OptionalDef) else "variadic" if isinstance(x, VariadicDef) else "single", "c": ["any"]} for _n, x in defs]
+
+            def opt(attr_cls, same_cls):
+                for o in od.options:
+                    if isinstance(o, attr_cls):
+                        return "attr", bool(o.as_property)
+                    if isinstance(o, same_cls):
+                        return "same", False
+                return "none", False
+
+            (oo, op_), (ro, rp), (go, gp) = opt(AttrSizedOperandSegments, SameVariadicOperandSize), opt(AttrSizedResultSegments, SameVariadicResultSize), \
+                opt(AttrSizedRegionSegments, SameVariadicRegionSize)
+            d = {"ops": kinds(od.operands), "res": kinds(od.results), "regs": kinds(od.regions), "oopt": oo, "ropt": ro, "gopt": go}
+            if len(d["ops"]) > 5 or len(d["res"]) > 4 or len(d["regs"]) > 3:
+                continue
+            out.append((cls, d, {"o": op_, "r": rp, "g": gp}))
+    return out
+
+
+def make_instance(cls, d, inst, ext_vals, asprop=None):
     from xdsl.dialects.builtin import DenseArrayBase, i32
     from xdsl.ir import Block, Region
 
     T = toks()
     props: dict[str, Any] = {}
+    if asprop is not None:
+        attrs: dict[str, Any] = {}
+        for flag, key, name in (("hasosz", "osz", "operandSegmentSizes"), ("hasrsz", "rsz", "resultSegmentSizes"), ("hasgsz", "gsz", "regionSegmentSizes")):
+            if inst[flag]:
+                (props if asprop[key[0]] else attrs)[name] = DenseArrayBase.from_list(i32, inst[key])
+        from xdsl.dialects import test
+
+        src = test.TestOp.create(result_types=[T[t] for t in inst["ops"]])
+        op = cls.create(operands=list(src.results), result_types=[T[t] for t in inst["res"]], properties=props, attributes=attrs,
+                        regions=[Region() for _ in range(inst["nregs"])])
+        Block([src, op])
+        return op
     if inst["hasosz"]:
         props["operandSegmentSizes"] = DenseArrayBase.from_list(i32, inst["osz"])
     if inst["hasrsz"]:
@@ -248,7 +304,7 @@ def run(ctx: Ctx):
             if verdict == 1:
                 a = accessors(op, d)
                 oacc, racc, gacc = norm_acc(a[0]), norm_acc(a[1]), norm_acc(a[2])
-            insts.append({"inst": inst, "verdict": verdict, "built": built, "oacc": oacc, "racc": racc, "gacc": gacc})
+            insts.append({"inst": inst, "verdict": verdict, "built": built, "oacc": oacc, "racc": racc, "gacc": gacc, "oneside": 0})
         # constructor-built instances from per-segment arguments that satisfy the definition
         for _ in range(3):
             b = build_via_constructor(rng, cls, d, ext)
@@ -256,20 +312,48 @@ def run(ctx: Ctx):
                 insts.append(b)
         ninst += len(insts)
         cases.append({"def": d, "insts": insts})
-    ctx.log(f"{len(cases)} definitions ({skipped} refused by irdl_op_definition), {ninst} instances, {crashes} internal errors in verify()")
+    # the operations of all registered dialects: their segment structure (kinds + size options; constraints abstracted to "any") against raw
+    # instances with arbitrary operand / result / region counts - one-sided: where no split exists, verify() must reject
+    n_reg_ops = n_reg_inst = 0
+    rrng = ctx.rng("registered")
+    regs = registered_defs()
+    if ctx.quick:
+        regs = rrng.sample(regs, min(len(regs), 400))
+    for cls, d, asprop in regs:
+        insts = []
+        for inst in gen_insts(rrng, d, 5 if ctx.quick else 12):
+            try:
+                op = make_instance(cls, d, inst, ext, asprop)
+            except Exception:  # noqa: BLE001
+                continue
+            try:
+                op.verify()
+                verdict = 1
+            except VerifyException:
+                verdict = 0
+            except Exception:  # noqa: BLE001
+                verdict = -1
+            insts.append({"inst": inst, "verdict": verdict, "built": 0, "oacc": [], "racc": [], "gacc": [], "oneside": 1})
+        if insts:
+            n_reg_ops += 1
+            n_reg_inst += len(insts)
+            cases.append({"def": d, "insts": insts, "opname": cls.name})
+    ninst += n_reg_inst
+    ctx.log(f"{len(cases) - n_reg_ops} definitions ({skipped} refused by irdl_op_definition), {n_reg_ops} registered operations, {ninst} instances, {crashes} internal errors in verify()")
     res = casecheck.run_cases("irdl/OpDefCases.tla", cases, min_per_shard=10)
     for idx, tail in res.mismatches:
         clause, j = tail
         c = cases[idx]
         x = c["insts"][j - 1]
-        ctx.violate(f"{clause}: definition {c['def']} instance {x['inst']} verify() -> {x['verdict']} accessors {x['oacc']} {x['racc']} {x['gacc']}",
-                    {"clause": clause, "def": c["def"], "inst": x["inst"], "verdict": x["verdict"], "built": x["built"],
+        ctx.violate(f"{clause}: {('registered operation ' + c['opname'] + ' ') if c.get('opname') else ''}definition {c['def']} instance {x['inst']} verify() -> {x['verdict']} accessors {x['oacc']} {x['racc']} {x['gacc']}",
+                    {"clause": clause, "def": c["def"], "inst": x["inst"], "verdict": x["verdict"], "built": x["built"], "opname": c.get("opname", ""),
                      "attr_sized": [c["def"]["oopt"], c["def"]["ropt"], c["def"]["gopt"]]}, clause=clause)
     ctx.coverage.update({"evaluations": ninst, "distinct_nontrivial": len({repr((c['def'], x['inst'])) for c in cases for x in c['insts']}),
-                         "definitions": len(cases), "definitions_refused_by_library": skipped, "verify_internal_errors": crashes, "judge_states": res.states,
+                         "definitions": len(cases) - n_reg_ops, "registered_operations": n_reg_ops, "registered_operation_instances": n_reg_inst, "definitions_refused_by_library": skipped, "verify_internal_errors": crashes, "judge_states": res.states,
                          "rule": "seeded definitions (<=3 operand, <=2 result, <=2 region segments of kind single/optional/variadic; constraints any / eq / shared "
                                  "type variable; options none/same-size/attr-sized) x raw instances (lists up to 4/3/3, size arrays incl. missing, wrong length, "
-                                 "negative, not summing) + constructor-built instances; distinct = distinct (definition, instance) pairs"})
+                                 "negative, not summing) + constructor-built instances; plus the segment structure of every IRDL operation of every registered dialect (quick: 400 sampled) against raw "
+                                 "instances, one-sided (no split => rejected); distinct = distinct (definition, instance) pairs"})
     ctx.sample({"def": cases[0]["def"], "inst": cases[0]["insts"][0]})
     ctx.assumptions += ["OpDefVerify.tla's exists-a-split semantics is the property; properties/attributes other than the size arrays are not generated",
                         "successor segments are not generated (they need terminator ops); regions carry no constraints"]
@@ -349,4 +433,4 @@ def build_via_constructor(rng, cls, d, ext):
     hg, gsz = arr("regionSegmentSizes")
     inst = {"ops": flat_o, "res": flat_r, "nregs": sum(sg), "osz": osz, "hasosz": ho, "rsz": rsz, "hasrsz": hr, "gsz": gsz, "hasgsz": hg}
     a = accessors(op, d) if verdict == 1 else ([], [], [])
-    return {"inst": inst, "verdict": verdict, "built": 1, "oacc": norm_acc(a[0]), "racc": norm_acc(a[1]), "gacc": norm_acc(a[2])}
+    return {"inst": inst, "verdict": verdict, "built": 1, "oacc": norm_acc(a[0]), "racc": norm_acc(a[1]), "gacc": norm_acc(a[2]), "oneside": 0}
